@@ -48,6 +48,14 @@ structure DrawCfg.Plain (c : DrawCfg) : Prop where
   ct : c.cornerTrick = false
   wg : c.walkGuard = true → c.guardLocked = true
 
+/-- every configuration, the bottom-right insert-character trick included (`cornerTrick` arbitrary): all that is asked is
+    that the walk fix presupposes the locked-neighbour guard.  The Layer-A invariant of C01/C13 is carried through the
+    trick branch under the side condition `CornerSafe` (Lemmas/DrawDefs.lean). -/
+structure DrawCfg.Walk (c : DrawCfg) : Prop where
+  wg : c.walkGuard = true → c.guardLocked = true
+
+theorem DrawCfg.Plain.walk {c : DrawCfg} (h : c.Plain) : c.Walk := ⟨h.wg⟩
+
 /-- abstract commands emitted by the draw path, in order; `Render.render` turns each into bytes -/
 inductive Cmd where
   | goto (x y : Int)                            -- TPuts(TGoto(x,y))
